@@ -173,7 +173,8 @@ impl Property for C05 {
     fn rule(&self) -> &'static str {
         "case = vector kind (5 shared + 3 local) x 1-4 label names x 0-2 constant labels x 2-12 requests (slice or map form, \
          values concatenated from an adversarial fragment pool; later requests are re-splits / permutations / repeats of earlier \
-         tuples) + error requests; every successful request is followed by a unique 2^i update. Non-trivial: two different tuples \
+         tuples; 6% of requests use a 24-83 byte value or a variant of it with a region removed / repeated / one byte changed) + error requests; every successful request is followed by a unique 2^i update; 2% of cases start from a \
+         vector that already holds 200-2100 other children. Non-trivial: two different tuples \
          with equal concatenation, or equal tuples requested through different forms/orders. Distinct = hash of decoded choices."
     }
     fn assumptions(&self) -> Vec<&'static str> {
@@ -230,11 +231,70 @@ impl Property for C05 {
         let mut shifted = false;
         let mut cross_form = false;
         let mut nerr = 0;
+        let mut last_long: Option<(Vec<String>, usize)> = None;
+
+        // 2% of cases: the vector already holds hundreds to thousands of other children (the library imposes no limit;
+        // every one of them must still be there, once, with its own value, at every later check)
+        let bulk = if src.chance(5) { 200 + src.below(1900) } else { 0 };
+        for k in 0..bulk {
+            let tuple: Vec<String> = (0..nlab).map(|j| format!("#{}", (k * 7919 + j * 31 + 13) % 10007)).collect();
+            if model.contains_key(&tuple) {
+                continue;
+            }
+            match vec.get_slice_owned(&tuple) {
+                Ok(c) => c.update(40),
+                Err(e) => return fail("valid-request-rejected", format!("tuple={:?}: {}", tuple, e)),
+            }
+            model.entry(tuple).or_default().updates.push(40);
+        }
+        if bulk > 0 {
+            rep.class("large-vector(200-2100 further children)");
+        }
 
         for i in 0..nreq {
             // ---- choose the tuple
             let mode = src.below(8);
-            let tuple: Vec<String> = if history.is_empty() || mode < 3 {
+            // 6% of requests: one value is a long string (24-83 bytes), or a structural variant of the long value used before
+            // (a region removed or repeated, one byte changed, or unchanged) - chunk-wise or prefix-based hashing of label values
+            // separates short strings and goes wrong exactly on such pairs
+            let long_req = src.chance(16);
+            let tuple: Vec<String> = if long_req {
+                const ALPHA: &[u8] = b"abcdefghijklmnopqrstuvwxyz0123456789_";
+                match &last_long {
+                    Some((prev, k)) if src.chance(170) => {
+                        let base = prev[*k].as_bytes().to_vec();
+                        let len = base.len();
+                        let v: Vec<u8> = match src.below(4) {
+                            0 | 1 => {
+                                let x = src.below(len + 1);
+                                let y = src.below(len + 1);
+                                base[..x].iter().chain(base[y..].iter()).copied().collect()
+                            }
+                            2 => {
+                                let mut v = base.clone();
+                                let p = src.below(len.max(1));
+                                if !v.is_empty() {
+                                    v[p] = if v[p] == b'q' { b'r' } else { b'q' };
+                                }
+                                v
+                            }
+                            _ => base.clone(),
+                        };
+                        let mut t = prev.clone();
+                        t[*k] = String::from_utf8(v).unwrap();
+                        t
+                    }
+                    _ => {
+                        let len = 24 + src.below(60);
+                        let off = src.below(37);
+                        let k = src.below(nlab);
+                        let mut t: Vec<String> = (0..nlab).map(|_| src.text(VALUE_FRAGS, 1)).collect();
+                        t[k] = (0..len).map(|i| ALPHA[(off + i) % ALPHA.len()] as char).collect();
+                        last_long = Some((t.clone(), k));
+                        t
+                    }
+                }
+            } else if history.is_empty() || mode < 3 {
                 (0..nlab).map(|_| src.text(VALUE_FRAGS, 3)).collect()
             } else {
                 let j = src.below(history.len());
@@ -456,6 +516,9 @@ impl Property for C05 {
         });
         if shifted {
             rep.class("boundary-shifted-pair");
+        }
+        if last_long.is_some() {
+            rep.class("long-value-and-structural-variants");
         }
         if cross_form {
             rep.class("same-tuple-different-form");
